@@ -14,6 +14,7 @@ import (
 	"github.com/pion/dtls/v3/pkg/crypto/elliptic"
 	"github.com/pion/dtls/v3/pkg/protocol"
 	"github.com/pion/dtls/v3/pkg/protocol/alert"
+	extension13 "github.com/pion/dtls/v3/pkg/protocol/extension/dtls13"
 	"github.com/pion/dtls/v3/pkg/protocol/handshake"
 	"github.com/pion/dtls/v3/pkg/protocol/recordlayer"
 )
@@ -60,6 +61,14 @@ func flight2Parse(
 	}
 	state.RemoteClientHelloSnapshots = snapshots
 
+	// The version was chosen from the cookie-less ClientHello, which no
+	// Finished covers. This one is covered: if it offers a version this
+	// endpoint enables and prefers to DTLS 1.2, the first one was altered in
+	// transit, and continuing would complete below what both sides allow.
+	if dtlsAlert, err := rejectVersionDowngrade(cfg, clientHello); err != nil {
+		return 0, dtlsAlert, err
+	}
+
 	// Negotiate from the ClientHello that enters the Finished transcript. The
 	// first, cookie-less ClientHello is not covered by it (RFC 6347 Section
 	// 4.2.1) and extensions may differ between the two, so state derived from
@@ -78,6 +87,25 @@ func flight2Parse(
 	}
 
 	return Flight4, nil, nil
+}
+
+func rejectVersionDowngrade(cfg *dtlsconfig.HandshakeConfig, clientHello *handshake.MessageClientHello) (*alert.Alert, error) {
+	if !cfg.MaxVersion.Equal(protocol.Version1_3) {
+		return nil, nil
+	}
+	for _, e := range clientHello.Extensions {
+		offered, ok := e.(*extension13.OfferedVersions)
+		if !ok {
+			continue
+		}
+		chosen, ok := dtlsconfig.SelectVersion(offered.Versions, cfg.MinVersion, cfg.MaxVersion)
+		if ok && !chosen.Equal(protocol.Version1_2) {
+			return &alert.Alert{Level: alert.Fatal, Description: alert.IllegalParameter},
+				dtlserrors.ErrUnsupportedProtocolVersion
+		}
+	}
+
+	return nil, nil
 }
 
 func flight2Generate(
